@@ -244,6 +244,12 @@ func c15One(c *core.Ctx, s *sgen.Schema, desc, route string, attrs map[string]st
 		return
 	}
 	perText := strings.Join(per, "\n")
+	// a schema that was never declared is not one of the root's types: what an 'extend schema' added to it travels as that extension
+	for _, b := range one.Blocks {
+		if b.Extend {
+			perText += "\n" + (sgen.Unit{Block: b}).Text()
+		}
+	}
 	lp := loadSDL(perText)
 	if lp.pi != nil || lp.err != nil {
 		c.Outcome("per-type-sdl-refused")
